@@ -9,7 +9,41 @@ import ast
 
 from ..fsm_model import exc_hierarchy
 from ..srcmodel import AnalysisError, norm
-from ..sym import SymClient, empty_state, expand_items, is_token, loop_body_outcomes, token_class
+from ..sym import SymClient, empty_state, expand_items as _expand_items, is_token, loop_body_outcomes, token_class
+
+
+
+class _UidCanon(ast.NodeTransformer):
+    """Two forms that say the same about a UID a peer proposed: ``x.rstrip(P)`` / ``x.strip(P)`` with P made of characters a UID
+    cannot contain (NUL, blanks: padding some peers leave) is x for every legal name; membership in ``tuple(S)`` / ``list(S)`` /
+    ``set(S)`` / ``frozenset(S)`` is membership in S."""
+    def visit_Call(self, node):
+        self.generic_visit(node)
+        if isinstance(node.func, ast.Attribute) and node.func.attr in ('rstrip', 'strip') and not node.keywords:
+            if not node.args or (len(node.args) == 1 and isinstance(node.args[0], ast.Constant) and isinstance(node.args[0].value, str)
+                                 and not set(node.args[0].value) & set('0123456789.')):
+                return node.func.value
+        return node
+
+    def visit_Compare(self, node):
+        self.generic_visit(node)
+        if len(node.ops) == 1 and isinstance(node.ops[0], (ast.In, ast.NotIn)):
+            c = node.comparators[0]
+            if isinstance(c, ast.Call) and isinstance(c.func, ast.Name) and c.func.id in ('tuple', 'list', 'set', 'frozenset') \
+                    and len(c.args) == 1 and not c.keywords:
+                node.comparators = [c.args[0]]
+        return node
+
+
+def expand_items(term: str) -> str:
+    t = _expand_items(term)
+    try:
+        e = ast.parse(t, mode='eval').body
+    except SyntaxError:
+        return t
+    e2 = _UidCanon().visit(e)
+    ast.fix_missing_locations(e2)
+    return ast.unparse(e2)
 
 
 def ev(call, callee, client, state):
@@ -114,7 +148,11 @@ def run(repo, rep):
         if res == '0':
             n_accept += 1
             if not (served and ts_ok):
-                p2.append('result 0 answered without both tests (served as SCP: %s, a proposed syntax supported: %s)' % (served, ts_ok))
+                hint = ''
+                if any('.startswith(' in cn and 'supported_ts' in cn for cn in conds) or any('.endswith(' in cn and 'supported_ts' in cn for cn in conds):
+                    hint = ' -- the syntax is tested by prefix / suffix, not for equality: transfer syntax UIDs are prefixes of one another ' \
+                           '(1.2.840.10008.1.2 of 1.2.840.10008.1.2.1, .1.2.2, .1.2.4.50 ...)'
+                p2.append('result 0 answered without both tests (served as SCP: %s, a proposed syntax supported: %s)%s' % (served, ts_ok, hint))
             tsf = expand_items(flds.get('@ts_sub_item', ''))
             if tsf != ts_item and is_token(tsf) and token_class(tsf) == 'TransferSyntaxSubItem':
                 # a sub-item built anew from the name of the proposed one that was tested carries the same transfer syntax
